@@ -90,4 +90,20 @@ def Wrap.run (w : Wrap) : Nat → List Bool → Nat × List Bool
 def wrapOf (transparent : Bool) : Option Wrap :=
   if transparent then some ⟨none, true⟩ else none
 
+/-! ## what the call leaves in the query context (`Forward.Exec`, the executable of `QuickConfigureExec`) -/
+
+/-- the response slot of a query context: rcode and origin of the response it holds, if any -/
+abbrev Slot := Option (Nat × Nat)
+
+/-- `Exec` after `exchange`. `keep prev rc` says whether the code leaves the context alone when `exchange` chose a
+reply of rcode `rc` and the context already holds `prev` (the source: never - regenerated fact
+`c14ExecInstallsReply`). Result: the response slot after the call, and whether the call returned nil. -/
+def execWith (keep : Slot → Nat → Bool) (prev : Slot) : Out → Slot × Bool
+  | .reply rc f => (if keep prev rc then prev else some (rc, f), true)
+  | _ => (prev, false)
+
+/-- the `keep` of the source, as far as the regenerated fact describes it -/
+def keepOf (installs : Bool) : Option (Slot → Nat → Bool) :=
+  if installs then some (fun _ _ => false) else none
+
 end Model.C14
